@@ -66,6 +66,7 @@ type op struct {
 	label string
 	obj   uintptr
 	en    Enabler // nil: always enabled
+	low   bool    // a gate: enabled, but by default every other enabled thread runs first
 }
 
 type thread struct {
@@ -341,12 +342,22 @@ func (s *Sched) schedule(t *thread) {
 	}
 	var enabled []*thread
 	runEn := false
-	if !t.finished && t.pend != nil && t.pend.enabledNow() {
+	if !t.finished && t.pend != nil && !t.pend.low && t.pend.enabledNow() {
 		enabled = append(enabled, t)
 		runEn = true
 	}
 	for _, u := range s.threads {
-		if u == t || u.finished || u.pend == nil {
+		if u == t || u.finished || u.pend == nil || u.pend.low {
+			continue
+		}
+		if u.pend.enabledNow() {
+			enabled = append(enabled, u)
+		}
+	}
+	// threads waiting at a gate come last: the default is to let everybody else run as far as
+	// they can first; letting a gated thread through earlier is a deviation like any other
+	for _, u := range s.threads {
+		if u.finished || u.pend == nil || !u.pend.low {
 			continue
 		}
 		if u.pend.enabledNow() {
@@ -566,6 +577,20 @@ func Quiesce() {
 		return
 	}
 	s.point(&op{kind: KQuiesce, label: "quiesce", en: quiesceEn{s, s.running}})
+}
+
+// Gate is a scheduling point at which the calling thread stays enabled but, by default, lets
+// every other enabled thread run first (until they block or finish). Unlike Quiesce the
+// explorer may also let it through early, at the price of one deviation, so that schedules
+// in which the gated step lands while another thread is part-way through are covered too.
+//
+//go:norace
+func Gate(label string) {
+	s := installed()
+	if s == nil {
+		return
+	}
+	s.point(&op{kind: KYield, label: "gate:" + label, low: true})
 }
 
 // JoinHarness blocks until every other harness (non-daemon) thread has finished.
